@@ -60,3 +60,39 @@ pub fn random_point(seed: &[u8]) -> [u8; 48] {
     let k = blst::min_sig::SecretKey::key_gen(&ikm, &[]).unwrap();
     k.sign(seed, &[], &[]).to_bytes()
 }
+
+/// a point of the curve E(Fp) that is NOT in the prime-order subgroup G1: a random curve point
+/// multiplied by the group order r (what is left lives in the cofactor subgroup; pairings with
+/// final exponentiation do not see it). None when the seed gives no such point.
+pub fn small_order_point(seed: &[u8]) -> Option<[u8; 48]> {
+    use blake2::{Blake2b512, Digest};
+    // r, little endian
+    const R_LE: [u8; 32] = [
+        0x01, 0x00, 0x00, 0x00, 0xff, 0xff, 0xff, 0xff, 0xfe, 0x5b, 0xfe, 0xff, 0x02, 0xa4, 0xbd, 0x53, 0x05, 0xd8, 0xa1, 0x09, 0x08, 0xd8, 0x39, 0x33, 0x48, 0x7d,
+        0x9d, 0x29, 0x53, 0xa7, 0xed, 0x73,
+    ];
+    for ctr in 0u32..64 {
+        let mut x = [0u8; 48];
+        for (i, chunk) in x.chunks_mut(32).enumerate() {
+            let mut h = Blake2b512::new();
+            h.update(b"small-order");
+            h.update(seed);
+            h.update(ctr.to_le_bytes());
+            h.update([i as u8]);
+            let d = h.finalize();
+            chunk.copy_from_slice(&d[..chunk.len()]);
+        }
+        // compressed form: bit 7 set, not infinity, x below the field modulus (top nibble cleared)
+        x[0] = 0x80 | (x[0] & 0x2f);
+        let Some(p) = decompress(&x) else { continue };
+        unsafe {
+            let mut t = blst_p1::default();
+            blst_p1_mult(&mut t, &p, R_LE.as_ptr(), 255);
+            if blst_p1_is_inf(&t) || blst_p1_in_g1(&t) {
+                continue;
+            }
+            return Some(compress(&t));
+        }
+    }
+    None
+}
